@@ -41,6 +41,42 @@ def _types():
 
 
 MS_CHOICES = [100, 10, 20, 50, 500, 1000, 2540, 2549, 2550, 2560, 9, 5, 0, 11, 19, 10000, -10, -100, 2539, 15]
+def _float_periods():
+    """float periods: integral, fractional, the acceptance boundaries and their neighbours, rate-derived"""
+    import math
+    base = [20.0, 33.3, 2540.0, 10.5, 9.99, 10.0, 2549.9, 2550.0, 29.999999999, 30.0, 1000 / 3, 1000 / 30,
+            1000 / 7, 99.99999999999999, 2549.999999999, 250.0, 100.0, 15.0, 19.999, 2539.5, 0.0, -0.5, 0.001, 5.0,
+            1e6, 2560.0, 11.0, 1000.0, 500.25]
+    for x in (10.0, 20.0, 30.0, 100.0, 2540.0, 2550.0, 1000.0):
+        base += [math.nextafter(x, 0.0), math.nextafter(x, 1e9)]
+    return base
+
+
+def _rand_period(rng):
+    """period_in_ms of a generated configuration: an int, or a float spec ['f'|'np', a, b]"""
+    d = _driver()
+    r = rng.random()
+    if r < 0.22:
+        fl = _float_periods()
+        x = rng.choice(fl) if rng.random() < 0.7 else rng.uniform(-20.0, 2700.0)
+        kind = 'f'
+        if rng.random() < 0.25:
+            try:
+                import numpy  # noqa
+                kind = 'np'
+            except ImportError:
+                pass
+        return d.float_spec(x, kind)
+    return None
+
+
+def _period_fraction(ms):
+    from fractions import Fraction
+    if isinstance(ms, (list, tuple)):
+        return Fraction(int(ms[1]), int(ms[2]))
+    return Fraction(ms)
+
+
 FLOAT_SPECIALS32 = [0, 0x80000000, 0x7F800000, 0xFF800000, 0x7FC00000, 0x7FC00001, 0xFFC12345, 1, 0x007FFFFF,
                     0x3F800000, 0x7F7FFFFF, 0x00800000]
 FLOAT_SPECIALS16 = [0, 0x8000, 0x7C00, 0xFC00, 0x7E00, 0x7E01, 0xFE55, 1, 0x03FF, 0x3C00, 0x7BFF, 0x0400]
@@ -80,6 +116,8 @@ class HistoryGen:
         self.recs = []
         self.full = []
         self.acks = []           # pending device replies
+        self.capacity = None     # capacity-limited device: number of blocks it has room for
+        self.dev_blocks = set()
         self.toc_entries = []
         self.profile = profile
         self.stats = {'accepted': 0, 'rejected': 0, 'create_pkts': 0, 'acks': 0, 'data': 0, 'data_decoded': 0,
@@ -102,6 +140,26 @@ class HistoryGen:
                         self.stats['split'] += 1
                 if cmd == 5:
                     self.acks.append([5, 0, 0])
+                    self.dev_blocks = set()
+                elif len(data) >= 2 and self.capacity is not None:
+                    # a device with room for `capacity` blocks: ENOMEM beyond, EEXIST for a block it holds,
+                    # delete frees the room
+                    bid = data[1]
+                    st = 0
+                    if cmd in (0, 6):
+                        if bid in self.dev_blocks:
+                            st = 17
+                        elif len(self.dev_blocks) >= self.capacity:
+                            st = 12
+                        else:
+                            self.dev_blocks.add(bid)
+                    elif cmd == 2:
+                        st = 0 if bid in self.dev_blocks else 2
+                        self.dev_blocks.discard(bid)
+                    elif cmd in (3, 4) and bid not in self.dev_blocks:
+                        st = 2
+                    if cmd in (0, 6, 2, 3, 4):
+                        self.acks.append([cmd, bid, st])
                 elif len(data) >= 2:
                     r = rng.random()
                     if r < 0.82:
@@ -171,6 +229,9 @@ class HistoryGen:
         ms = rng.choice(MS_CHOICES) if rng.random() < 0.8 else rng.randrange(-50, 3000)
         if rng.random() < 0.6:
             ms = 100
+        fp = _rand_period(rng)
+        if fp is not None:
+            ms = fp
         self.emit(['new', ms])
         mode = rng.choice(['ones', 'ones', 'mixed', 'mixed', 'boundary', 'small'])
         if mode == 'ones':
@@ -246,9 +307,50 @@ class HistoryGen:
         else:
             self.emit(['linkdown'])
 
+    def run_capacity(self):
+        """a device with room for 1-2 blocks: later creations are refused with ENOMEM; a block is stopped and
+        deleted; the refused configurations are started again (twice in a row sometimes, before the ack)"""
+        rng = self.rng
+        self.capacity = rng.choice([1, 1, 2])
+        self.session()
+        hs = []
+        for _ in range(self.capacity + rng.choice([1, 2])):
+            h = len(self.im.cfgs)
+            self.emit(['new', 100])
+            for _ in range(rng.choice([1, 2, 10])):
+                self.emit(['addvar', h, self.pick_name(1.0), rng.choice([1, 4])])
+            self.add(h)
+            self.emit(['start', h])
+            if rng.random() < 0.3:
+                self.emit(['start', h])           # start() again before the acknowledgement
+            self.deliver_all()
+            hs.append(h)
+        for _ in range(rng.choice([1, 2, 3])):
+            victim = rng.choice(hs)
+            self.emit(['stop', victim])
+            self.emit(['delete', victim])
+            self.deliver_all()
+            for h in hs:
+                if rng.random() < 0.8:
+                    self.emit(['start', h])
+                    self.deliver_all()
+                    if rng.random() < 0.5:
+                        self.data_packet(h)
+        return self
+
+    def deliver_all(self):
+        for _ in range(6):
+            if not self.acks:
+                break
+            a = self.acks.pop(0)
+            self.stats['acks'] += 1
+            self.emit(['pkt', 1, a])
+
     def run(self):
         rng = self.rng
         p = self.profile
+        if p == 'capacity':
+            return self.run_capacity()
         if p == 'noise' and rng.random() < 0.3:
             pass                                  # no session at all: link down, no TOC
         else:
@@ -426,7 +528,7 @@ def tie(ctx):
     n = ctx.scale(240, 6000)
     gens = []
     for i in range(n):
-        prof = 'many' if i % 120 == 7 else ('noise' if i % 4 == 1 else ('short' if i % 4 == 2 else 'std'))
+        prof = 'capacity' if i % 10 == 3 else 'many' if i % 120 == 7 else ('noise' if i % 4 == 1 else ('short' if i % 4 == 2 else 'std'))
         gens.append(HistoryGen(rng, prof).run())
     terms = [g.coq_term() for g in gens]
     exp = [g.expected() for g in gens]
@@ -662,7 +764,7 @@ def _check_block(case):
         resolved_ty = {v.name: v.fetch_as for v in cfg.variables[len(typed):]}
         size = sum(DEV_SIZE[v[2]] for v in typed) + sum(
             DEV_SIZE[resolved_ty.get(d.name_str(v[1]), toc[v[1]][1])] for v in dflt if v[1] in toc)
-        want_accept = in_toc and (10 <= ms < 2550) and size <= 26
+        want_accept = in_toc and (10 <= _period_fraction(ms) < 2550) and size <= 26
         st0 = cfg_state()
         wires, code, obs = ev(['addcfg', 0])
         if wires:
@@ -721,6 +823,9 @@ def _check_block(case):
             raise _Fail('create_raised' + tag, 'creation messages', 'exception code %d' % code)
         if any(v[0] == 'm' for v in spec):
             return None         # no device format to check raw-memory entries against
+        if not wires and tag:
+            raise _Fail('start_sends_no_creation' + tag, 'create message (the device does not hold the block)', [],
+                        'start() of the accepted, not added configuration sent nothing (pending=%r)' % (cfg.pending,))
         if wires and wires[0][2][:1] == [3] and tag and tag != '_after_reconnect':
             raise _Fail('start_skips_create' + tag, 'create message (the device does not hold the block)', wires)
         if wires and wires[0][2][:1] == [3] and tag:
@@ -736,7 +841,8 @@ def _check_block(case):
     wires = check_creation('')
     if wires is None:
         return
-    period = ms // 10
+    import math
+    period = math.floor(_period_fraction(ms) / 10)      # the period byte: whole steps of 10 ms
     got_samples = []
     cfg.data_received_cb.add_callback(lambda ts, data, c: got_samples.append((ts, dict(data), c)))
 
@@ -773,6 +879,20 @@ def _check_block(case):
             for (n, f, _m), x in zip(want_vars, vals):
                 if not _same_value(f, x, gd[d.name_str(n)]):
                     raise _Fail('sample_value', [f, x], repr(gd[d.name_str(n)]), 'variable %s' % d.name_str(n))
+    if case.get('refuse'):
+        # the device has no room: it refuses the creation with an error status; the flags must not move and
+        # nothing may be started.  Room is made on the device, the same configuration is started again in the
+        # same session: the block must be created again
+        status = case['refuse']
+        w, code, obs = ev(['pkt', 1, [6, cfg.id, status]])
+        if code or w or cfg.added or cfg.started:
+            raise _Fail('refused_create_ack_moved_flags_or_sent', [[], 'added=False', 'started=False'],
+                        [[x[2] for x in w], 'added=%s' % cfg.added, 'started=%s' % cfg.started, 'exception code %d' % code],
+                        'the device refused CREATE for block id %d with status %d' % (cfg.id, status))
+        if any(o[0] == 2 and o[1] in (2, 4) for o in obs):
+            raise _Fail('refused_create_ack_moved_flags_or_sent', 'no added_cb(cfg, flag) / started_cb(cfg, flag)', obs)
+        if check_creation('_after_refusal') is None:
+            return
     device_acks('', case['samples'])
     # stop / delete
     w, code, obs = ev(['stop', 0])
@@ -929,6 +1049,9 @@ def _gen_block_case(rng, force=None):
         absent = [x for x in range(44, 50)]
         vs[rng.randrange(len(vs))][1] = rng.choice(absent)
     ms = 100 if rng.random() < 0.7 else rng.choice([10, 9, 2549, 2550, 2540, 0, -10, 500, 19, 20, 3000])
+    fp = _rand_period(rng)
+    if fp is not None:
+        ms = fp
     # samples
     want_types = [v[2] for v in vs if v[0] != 'd'] + [tocd.get(v[1], 1) for v in vs if v[0] == 'd']
     samples = []
@@ -946,6 +1069,8 @@ def _gen_block_case(rng, force=None):
     case = {'kind': 'block', 'toc': toc, 'ms': ms, 'vars': vs, 'samples': samples,
             'delete': rng.random() < 0.5, 'reconnect': rng.random() < 0.6}
     case['lag'] = rng.choice([0, 1, 2, 99, 99])
+    if rng.random() < 0.2:
+        case['refuse'] = rng.choice([12, 12, 7, 2, 8])      # ENOMEM, E2BIG, ENOENT, ENOEXEC
     tn = [v for v in vs if v[0] != 'm']
     if len(tn) >= 2 and not miss and rng.random() < 0.2:
         # the first device lacks one of the variables (not the first one): rejected with KeyError; the
@@ -1302,7 +1427,8 @@ def _shrink(case, cls, budget=400):
                     break
             continue
         cands = []
-        for key, val in (('reconnect', False), ('delete', False), ('restart', None), ('toc2', None), ('samples', []),
+        for key, val in (('reconnect', False), ('delete', False), ('restart', None), ('toc2', None), ('refuse', None),
+                         ('samples', []),
                          ('ms', 100)):
             if cur.get(key) not in (val, None) or (key == 'ms' and cur.get('ms') != 100):
                 c = copy.deepcopy(cur)
@@ -1395,7 +1521,8 @@ TRUSTED_BASE = [
     'CPython struct for "<e"/"<f" is a bit cast (floats are carried as bit patterns, all NaNs identified in the tie)',
 ]
 ASSUMPTIONS = [
-    'period_in_ms is an integer with |ms| < 2^31 (int(ms/10) = truncating division); float periods are not modelled',
+    'period_in_ms is an int or a float (numpy.float64 included) in the normal binary64 range; the model computes '
+    'int(period_in_ms / 10) from the exact rational value (fperiod: IEEE quotient, truncation)',
     'variable names are well-formed "group.name"; type names passed to add_variable/add_memory are in LogTocElement.types',
     'single-threaded: packets are handled one at a time by Log._new_packet_cb (as the incoming-packet thread does)',
     'SyncLogger.next() is only called when it would not block (queue non-empty or not connected); a blocked get() is '
@@ -1418,12 +1545,13 @@ PROVED = ('Over the model: add_config accepts iff names in TOC, 1<=int(ms/10)<=2
           'nothing foreign or from an earlier session, and terminates after a completed link loss -- also a loss at any '
           'point of connect() (step-by-step connect, loss between steps or inside a send); the late-registration variant '
           'of connect() is refuted; value contract of a sent packet (fresh packet per create/append message: transmitted = '
-          'commanded for every lag and resend schedule; shared packet object refuted).')
+          'commanded for every lag and resend schedule; shared packet object refuted); start() of a not added block '
+          'always creates (a refusal does not wedge it; the pending-guarded variant is refuted).')
 NOT_PROVED = ('Refuted on the unchanged code and kept as a known finding: raw-memory variables (add_memory) make create() '
               'raise TypeError (F05a; why it is not repaired: findings/C05.json why_not_fixed).  Not covered: protocol V1 has '
               'its theorem but no room test exists in the code (more than 14 variables exceed 30 bytes); append '
               'acknowledgements are ignored by the code; samples still queued in SyncLogger at disconnect are dropped; '
-              'Log.reset() (public) clears log_blocks without touching the flags; float period arguments; the firmware itself.  '
+              'Log.reset() (public) clears log_blocks without touching the flags; the firmware itself.  '
               'Observations under threads (not findings): disconnect() from another thread while the consumer is inside get() '
               'leaves it blocked; connect() between the two halves of _disconnected receives the old sentinel.  create() of a '
               'multi-message block is atomic in the model (a create ack handled between two of its send_packet calls would put '
